@@ -703,5 +703,31 @@ def verify_hash_delete_many(E, prop="C12"):
         E.contracts.pop(H + qn, None)
 
 
+def verify_ctor_defaults(E, prop="C16"):
+    """A wrapper built without an option behaves like a Client built without it: every constructor parameter that PooledClient /
+    HashClient share with Client has the same default expression (compared on the AST of the current source)."""
+    from . import poolmodel as pm
+    cfi = extract.func(pm.CL + ".__init__")
+
+    def defaults(fi):
+        a = fi.node.args
+        names = [x.arg for x in a.args]
+        d = dict(zip(names[len(names) - len(a.defaults):], a.defaults))
+        for x, dv in zip(a.kwonlyargs, a.kw_defaults):
+            if dv is not None:
+                d[x.arg] = dv
+        return names[1:], d
+    cnames, cdef = defaults(cfi)
+    st = State()
+    for cls in (pm.PC, H):
+        fi = extract.func(cls + ".__init__")
+        names, d = defaults(fi)
+        for p_ in names:
+            if p_ in cnames:
+                same = (p_ in d) == (p_ in cdef) and (p_ not in d or ast.dump(d[p_]) == ast.dump(cdef[p_]))
+                E.oblige("%s/%s/default-of-%s-is-Client's%s" % (prop, short(cls + ".__init__"), p_, E.case_suffix), st, z3.BoolVal(bool(same)), func=cls + ".__init__",
+                         kind="forward", meta={"wrapper_default": ast.unparse(d[p_]) if p_ in d else None, "client_default": ast.unparse(cdef[p_]) if p_ in cdef else None})
+
+
 from pyvc.sym import guard_units as _guard_units
 _guard_units(globals())
